@@ -27,6 +27,13 @@ func (l *LQueue[T]) Enqueue(item T) {
 	l.mu.Lock()
 	defer l.mu.Unlock()
 
+	// The list always keeps one node: reuse it when the queue is empty.
+	if l.n == 0 {
+		l.list.Value = item
+		l.n++
+		return
+	}
+
 	l.n++
 	l.list.Append(item)
 }
@@ -36,6 +43,10 @@ func (l *LQueue[T]) Enqueue(item T) {
 func (l *LQueue[T]) Dequeue() (item T) {
 	l.mu.Lock()
 	defer l.mu.Unlock()
+
+	if l.n == 0 {
+		return
+	}
 
 	node := l.list.Shift()
 	l.n--
@@ -54,6 +65,10 @@ func (l *LQueue[T]) Peek() T {
 func (l *LQueue[T]) Search(item T) bool {
 	l.mu.Lock()
 	defer l.mu.Unlock()
+
+	if l.n == 0 {
+		return false
+	}
 
 	if _, ok := l.list.Find(item); ok {
 		return true
@@ -75,6 +90,9 @@ func (l *LQueue[T]) Clear() {
 	l.mu.Lock()
 	defer l.mu.Unlock()
 
+	var zero T
+
 	l.n = 0
 	l.list.Clear()
+	l.list.Value = zero
 }
